@@ -63,13 +63,25 @@ pub fn parse_rootdefinition_enum(
                         .register_type(ir::TypeLayer::Scalar(ir::ScalarType::Int32)),
                 ),
                 Some(last_value) => {
-                    let next_value = match last_value.0 {
-                        ir::Constant::IntLiteral(v) => ir::Constant::IntLiteral(v + 1),
-                        ir::Constant::Int32(v) => ir::Constant::Int32(v + 1),
-                        ir::Constant::UInt32(v) => ir::Constant::UInt32(v + 1),
+                    // When the next value does not fit the type of the last value it becomes an untyped value
+                    // The type of the enum is then selected from the range of all values as normal
+                    let literal_ty = context
+                        .module
+                        .type_registry
+                        .register_type(ir::TypeLayer::Scalar(ir::ScalarType::IntLiteral));
+                    match last_value.0 {
+                        ir::Constant::IntLiteral(v) => (ir::Constant::IntLiteral(v + 1), last_value.1),
+                        ir::Constant::Int32(v) => match v.checked_add(1) {
+                            Some(next) => (ir::Constant::Int32(next), last_value.1),
+                            None => (ir::Constant::IntLiteral(v as i128 + 1), literal_ty),
+                        },
+                        ir::Constant::UInt32(v) => match v.checked_add(1) {
+                            Some(next) => (ir::Constant::UInt32(next), last_value.1),
+                            None => (ir::Constant::IntLiteral(v as i128 + 1), literal_ty),
+                        },
+                        ir::Constant::Bool(v) => (ir::Constant::IntLiteral(v as i128 + 1), literal_ty),
                         _ => panic!("Unexpected constant type in enum value"),
-                    };
-                    (next_value, last_value.1)
+                    }
                 }
             }
         };
